@@ -70,6 +70,9 @@ func optionsOf(o OptSpec) []bexpr.Option {
 	if h := hookFor(o.Hook); h != nil {
 		opts = append(opts, bexpr.WithHookFn(h))
 	}
+	if o.Max != 0 {
+		opts = append(opts, bexpr.WithMaxExpressions(o.Max))
+	}
 	return opts
 }
 
